@@ -78,7 +78,12 @@ def run(rep, tier):
             continue
         nontriv += 1
         if o["out"] != c["verdict"]:
-            rep.violation("auth/rule-%s/expected-%s" % (c["rule"], c["verdict"]), {"case": slim(c), "observed": o["out"]})
+            if c["stratum"] == "aliastype":
+                # its own class: the type of the event and which of the two names the power levels mention
+                keys = sorted(k.split(".")[0] for k in next(x for x in c["st"] if x["type"] == "m.room.power_levels")["c"]["pl"]["events"])
+                rep.violation("auth/event-type-known-under-two-names/%s/events-has-%s" % (c["e"]["type"], "+".join(keys) or "neither"), {"case": slim(c), "observed": o["out"], "expected": c["verdict"]})
+            else:
+                rep.violation("auth/rule-%s/expected-%s" % (c["rule"], c["verdict"]), {"case": slim(c), "observed": o["out"]})
         if n == 4242:
             rep.sample({"case": slim(c), "observed": o["out"]})
     # randomised concrete triples on top of the abstraction, judged by TLC (impl -> spec)
